@@ -656,7 +656,7 @@ PROPS["C02"] = {
     "gen": ["gen_verif_env.py"],
     "lean": ["QV.Props.C02"],
     "streams": ["c02"],
-    "rule": "each case derives from a generated binding program over the verification classes VBase/VDerived/VOther "
+    "rule": "grouped targets: every 4th int/bool/QString program is the value of a MEMBER of a gadget property of object a (font.*, sizePolicy.*) next to 0-2 constant and 0-2 dynamic sibling members; forms include Math.max/min of dynamic reads, the same property through one / two paths, QString::arg chains, list subscripts; (oracle c02-doc) 400 (quick) / 4000 whole documents over real Qt classes + VBase (bindings on widgets, layout, root, QAction; QFont/QSizePolicy maps mixing constant and dynamic members; a callback next to bindings; must-reject documents: dynamic attached property, dynamic member of a nested object map, notify-less source, dynamic pseudo property) judged by the header scan: for a grouped binding update<B>() is the read-modify-write recv->setP(eval<B>(recv->p())), every member assigned from its value function, constant members embedded, 'accepted and a dynamic member has no complete update path' fails; scanner mutants must be refused. " + "each case derives from a generated binding program over the verification classes VBase/VDerived/VOther "
             "(harness/metatypes/verif.json; objects a,b:VBase, o:VOther, dv:VDerived; binding on object a) emphasising reads "
             "through chains of pointer properties (a.next.next.i, b.next.peer.n, o.base.next.s), through locals, locals assigned "
             "in different branches/blocks, ternaries selecting objects, reads inside non-taken branches and switch bodies, null "
@@ -708,8 +708,7 @@ PROPS["C02"] = {
                   "values and excludes writes inside bindings and evaluations revisiting a block (the language has no loops; the "
                   "history stream would report such IR as undefined, C06 covers the CFG); (3) the link model-of-propdep ↔ real "
                   "propdep.rs is the exact-IR correspondence of stream `ir` (C06) plus `coveredcheck` on every real IR here — no "
-                  "theorem about the Rust source; (4) gadget-map sub-bindings (font.bold: …) share the same code path "
-                  "(CxxEvalExprFunction) but are not generated by stream c02",
+                  "theorem about the Rust source; (4) gadget-map members (font.*, sizePolicy.*) are generated: their IR goes through coveredcheck and the history run, and the header scan checks the shared update path of the whole gadget; gadget maps nested deeper than one level and contentsMargins/geometry members (rejected by qmluic as not readable) are not generated",
     "technique": "Lean 4 proofs (coverage of the dependency analysis; invariant of an abstract signal/slot world) + checker with "
                  "soundness proof applied to every real IR + execution of real IR in the abstract world on random histories + header scan",
 }
@@ -750,6 +749,10 @@ PROPS["C01"] = {
         "and spec-c01",
         "QString::arg(double) formatting and QVariant conversions between different stored types are not specified (not compared)",
         "uses of an integer constant outside the range of the int/uint type it meets are undefined in Spec.Sem (see F41)",
+        "a crash (SIGSEGV/SIGFPE/out-of-range read) of the generated code in a state — or of setup() in the initial state — counts as "
+        "a failure exactly when Spec.Sem defines a value there; every program runs in a child process of its own (fork), so "
+        "memory corruption caused by undefined behaviour of one program cannot take a batch down",
+        "call order (F42) is not observable by C01: every invokable with a result is pure in the verification classes",
     ],
     "level_text": "proof (partial): compile_correct_full_statement stated; proved for every input: fold_agrees_spec / "
                   "fold_unary_agrees_spec (folding of integer constants = Spec.Sem, no code emitted; corollary of C03), fold_int32_agree "
@@ -757,12 +760,23 @@ PROPS["C01"] = {
                   "(emit_result: one fresh local, append-only, previously computed locals preserved), unary_correct / binary_correct "
                   "(the emitted statement computes Spec.Sem.unop/binop), logical_wiring + logical_and_value / logical_or_value "
                   "(short-circuit CFG fragment), ternary_fragment, if_fragment + if_wiring, return_of_completion, and "
-                  "compile_correct_partial END-TO-END (build -> IR -> IrSem = Spec.Sem in every world) for the fragment P ::= o.p. "
+                  "compile_correct_partial END-TO-END (build -> IR -> IrSem = Spec.Sem in every world) for the STRAIGHT-LINE fragment "
+                  "P ::= e, e ::= integer | true | false | o.p | unary e | e (+) e with every unary and every non-logical binary operator "
+                  "(by induction over the monadic walkExpr with the builder invariant Grows: QV.Proofs.SemStraight.walk_straight; "
+                  "folded constants via fold_const_binary/unary, typed results via binop_dyn_not_cint); compile_correct_property_read "
+                  "(the earlier special case o.p). Not in the induction: variables, float/string/null literals, calls, casts, "
+                  "&& || ?: (their CFG fragments are separate theorems), statements. "
                   "Everything beyond is decided by execution of the real C++ and of the real IR against Spec.Sem.",
-    "level_note": "trusted: Lean kernel, g++, the runtime mock; quick tier: 60 translation units, ~1850 programs x 12 states run "
-                  "(~14 700 values compared, ~23 % of the states undefined and skipped), 2 400 real IRs executed by IrSem (~10 200 values), "
-                  "~2 350 function bodies compared exactly (0 disagreements); findings F40 (let in a switch clause leaks into the "
-                  "enclosing scope: uninitialised read), F41 (Math.max/min with a constant outside int: header does not compile)",
+    "level_note": "trusted: Lean kernel, g++, the runtime mock; quick tier (seed 20260925): 68 spec-c01 requests / 60 translation units, "
+                  "~1 850 programs x 12 states run (~14 200 values compared, ~25 % of the states undefined and skipped), 2 352 real IRs "
+                  "executed by IrSem (~10 000 values), 2 352 function bodies compared exactly (0 disagreements); thorough tier: 465 "
+                  "requests / 400 translation units (~155 600 values compared), 19 617 real IRs (~82 400 values), 19 617 bodies (0 "
+                  "disagreements). Findings: F40 (let in a switch clause leaked: uninitialised read) — found here, REPAIRED in /repo "
+                  "(2a702d4), corpus witness now a passing regression case; F32 (let directly in an if branch leaked; repaired a011e08) "
+                  "— regression witness corpus/C01/let_in_if_branch; F41 (an integer constant whose C++ spelling is a long literal — "
+                  "outside int, or -2147483648 — as argument of Math.max/min: std::max/min deduction fails in every argument "
+                  "order, the header does not compile) — KNOWN, attributed semantically by the driver tag f41-spec-c01 (quick 0, "
+                  "thorough 16 batches, corpus 7, no unattributed failure)",
     "technique": "Lean 4 proof (per-construct compiler correctness lemmas over an executable reference semantics) + specification-judged "
                  "execution of the real generated C++ and of the real IR",
 }
@@ -796,7 +810,11 @@ PROPS["C13"] = {
     "assumptions": [
         "Qt delivers a direct connection synchronously and passes the leading arguments to a functor taking fewer (documented Qt behaviour, "
         "implemented by the mock)",
-        "the general trace equality (callback_trace_full_statement) is decided per handler by execution, not proved",
+        "the general trace equality (callback_trace_full_statement) is decided per handler by execution, not proved; with the "
+        "specification's call order it is FALSE of the code today (F42): Spec.Sem carries the order as Ctx.argsFirst (false = the "
+        "specification, true = the F42 variant used only for attribution)",
+        "a handler whose generated code crashes counts as a failure exactly when Spec.Sem defines its trace in that state; every "
+        "handler runs in a child process of its own",
         "annotations naming classes the generated environment has no facts for (QWidget, QObject) are skipped by the model comparison",
     ],
     "level_text": "proof (partial): signal_name_some_iff / signal_name_rejects / signal_name_injective (on<Signal> mapping defined exactly "
@@ -807,10 +825,15 @@ PROPS["C13"] = {
                   "params_accepted_iff (#params <= #args and param type assignable FROM the argument type, position by position: leading "
                   "arguments), too_many_rejected; callback_trace_full_statement stated; callback_trace_partial END-TO-END for the "
                   "handler fragment H ::= o.p = true|false. Effects of arbitrary handlers are decided by executing the real header.",
-    "level_note": "quick tier: 31 requests / 24 translation units, ~560 handlers x 6 emissions (~2 450 traces compared, ~21 % undefined), "
-                  "940 function-text / rejection comparisons (0 disagreements, 2 skipped); findings F42 (call arguments evaluated before the "
-                  "callee: known, repair contradicts a pinned snapshot), F43 (assignment right-hand side before the left-hand object: "
-                  "repairable, findings/F43_assignment_order.fix.diff)",
+    "level_note": "quick tier (seed 20260925): 32 spec-c13 requests / 24 translation units, ~560 handlers x 6 emissions (~2 450 traces "
+                  "compared, ~21 % undefined), 940 function-text / rejection comparisons (0 disagreements, 2 skipped); thorough tier: 271 "
+                  "requests / 200 translation units (~56 400 traces compared), 6 040 text comparisons (0 disagreements). Findings: F43 "
+                  "(assignment right-hand side evaluated before the left-hand object) — found here, REPAIRED in /repo (5ccd31a), corpus "
+                  "witness now a passing regression case; F42 (call arguments evaluated before the callee expression) — KNOWN (repair "
+                  "contradicts a pinned snapshot), attributed semantically by the driver tag f42-spec-c13: the real traces must equal "
+                  "Spec.Sem with ONLY the arguments-first deviation (quick 5, thorough 43 batches); F44 (F41's cause in a handler: "
+                  "long literal as argument of Math.max/min or of the overloaded slot bump(int)/bump(double): header does not compile) — "
+                  "KNOWN, tag f41-spec-c13 (quick 1, thorough 9); no unattributed failure in either tier",
     "technique": "Lean 4 proof (overload choice, parameter rule, name mapping) + specification-judged execution of the real generated C++",
 }
 
